@@ -459,6 +459,11 @@ class Command(Accessible):
                 raise ProgrammingError(f'Command {func.__name__}: Function'
                                        f' argument names do not match struct'
                                        f' members!: {params} != {members}')
+            # set the optional members on a copy: the datatype object given by the
+            # caller might be used for other commands too
+            self.argument = self.argument.copy()
+            if 'argument' in self.ownProperties:
+                self.ownProperties['argument'] = self.argument
             self.argument.optional = [p for p,v in sig.parameters.items()
                    if v.default is not inspect.Parameter.empty]
         if 'description' not in self.ownProperties and func.__doc__ is not None:
